@@ -55,8 +55,12 @@
 // wrote (Write on the socket returned without error) a 2xx reply to the final
 // dot - per recipient for LMTP. TxnRecord.Committed / CommittedRcpts follow
 // that definition; a DropBefore at the dot therefore leaves Committed false,
-// a DropAfter with a 2xx leaves it true. Transcript is safe to call at any
-// time, including from inside Script and after Close.
+// a DropAfter with a 2xx leaves it true. A Raw reply counts as 2xx only if
+// Action.Code says so or its first three bytes are the digits of a 2xx code.
+// The write and its bookkeeping are atomic with respect to Transcript: once a
+// client has read a reply, the transcript already shows the reply and its
+// consequences. Transcript is safe to call at any time, including from inside
+// Script and after Close.
 //
 // # DATA
 //
@@ -87,6 +91,7 @@ import (
 	"strconv"
 	"strings"
 	"sync"
+	"sync/atomic"
 	"time"
 )
 
@@ -319,16 +324,28 @@ type Server struct {
 	ln   net.Listener
 	done chan struct{}
 	wg   sync.WaitGroup
+	seq  atomic.Uint64
 
 	mu      sync.Mutex
 	closed  bool
 	nextID  int
-	seq     uint64
 	live    map[int]net.Conn // raw TCP connections, by ID
 	active  int              // running handlers
 	changed chan struct{}    // closed and replaced whenever active changes
-	recs    []*ConnRecord
+	recs    []*connRec
 }
+
+// connRec is a connection's transcript with its lock. The lock is held by the
+// handler while it writes a reply and books the consequences, so a reader
+// never sees a reply that is on the wire but not yet in the record. Lock
+// order: never hold Server.mu and connRec.mu together.
+type connRec struct {
+	mu sync.Mutex
+	r  ConnRecord
+}
+
+// writeTimeout bounds a reply write (which happens under the record lock).
+const writeTimeout = 30 * time.Second
 
 // New starts a server.
 func New(cfg Config) (*Server, error) {
@@ -423,13 +440,22 @@ func (s *Server) WaitIdle(timeout time.Duration) bool {
 	}
 }
 
-// Transcript returns a deep copy of the per-connection records, in accept order.
-func (s *Server) Transcript() []ConnRecord {
+func (s *Server) snapshot() []*connRec {
 	s.mu.Lock()
 	defer s.mu.Unlock()
-	out := make([]ConnRecord, len(s.recs))
-	for i, r := range s.recs {
-		out[i] = copyConnRecord(r)
+	return append([]*connRec(nil), s.recs...)
+}
+
+// Transcript returns a deep copy of the per-connection records, in accept
+// order. Once a client has read a reply, the effects of that reply (codes,
+// Committed, ...) are guaranteed to be visible here.
+func (s *Server) Transcript() []ConnRecord {
+	recs := s.snapshot()
+	out := make([]ConnRecord, len(recs))
+	for i, cr := range recs {
+		cr.mu.Lock()
+		out[i] = copyConnRecord(&cr.r)
+		cr.mu.Unlock()
 	}
 	return out
 }
@@ -437,13 +463,13 @@ func (s *Server) Transcript() []ConnRecord {
 // Txns returns a deep copy of all transaction records of all connections,
 // ordered by connection, then by transaction number.
 func (s *Server) Txns() []TxnRecord {
-	s.mu.Lock()
-	defer s.mu.Unlock()
 	var out []TxnRecord
-	for _, r := range s.recs {
-		for i := range r.Txns {
-			out = append(out, copyTxnRecord(&r.Txns[i]))
+	for _, cr := range s.snapshot() {
+		cr.mu.Lock()
+		for i := range cr.r.Txns {
+			out = append(out, copyTxnRecord(&cr.r.Txns[i]))
 		}
+		cr.mu.Unlock()
 	}
 	return out
 }
@@ -499,10 +525,6 @@ func (s *Server) acceptLoop() {
 				return
 			default:
 			}
-			var ne net.Error
-			if errors.As(err, &ne) && ne.Timeout() {
-				continue
-			}
 			if errors.Is(err, net.ErrClosed) {
 				return
 			}
@@ -516,19 +538,19 @@ func (s *Server) acceptLoop() {
 			return
 		}
 		s.nextID++
-		rec := &ConnRecord{
+		rec := &connRec{r: ConnRecord{
 			ID:         s.nextID,
 			RemoteAddr: nc.RemoteAddr().String(),
 			LocalAddr:  nc.LocalAddr().String(),
-		}
+		}}
 		s.recs = append(s.recs, rec)
-		s.live[rec.ID] = nc
+		s.live[rec.r.ID] = nc
 		s.active++
 		s.bumpLocked()
 		s.wg.Add(1)
 		s.mu.Unlock()
 
-		c := &conn{s: s, id: rec.ID, raw: nc, nc: nc, rec: rec, remote: rec.RemoteAddr}
+		c := &conn{s: s, id: rec.r.ID, raw: nc, nc: nc, rec: rec, remote: rec.r.RemoteAddr, cur: -1}
 		c.br = bufio.NewReaderSize(nc, 32*1024)
 		go c.serve()
 	}
@@ -539,22 +561,22 @@ func (s *Server) bumpLocked() {
 	s.changed = make(chan struct{})
 }
 
-// conn is the per-connection state. Fields are owned by the handler goroutine;
-// everything reachable through rec is additionally guarded by s.mu because
-// Transcript reads it.
+// conn is the per-connection state. All fields are owned by the handler
+// goroutine. rec.r is written only by the handler, and only under rec.mu; the
+// handler itself may read it without the lock.
 type conn struct {
 	s      *Server
 	id     int
 	raw    net.Conn // the TCP connection
 	nc     net.Conn // raw, or the TLS connection on top of it
 	br     *bufio.Reader
-	rec    *ConnRecord
+	rec    *connRec
 	remote string
 
 	tls      bool
 	helo     string
 	txnN     int // number of MAIL commands seen
-	cur      int // index into rec.Txns of the active transaction, -1 if none
+	cur      int // index into rec.r.Txns of the active transaction, -1 if none
 	rcptIdx  int // RCPT commands seen in the active transaction
 	rawClose bool
 	ended    bool
@@ -620,10 +642,16 @@ func leadingCode(raw []byte) int {
 	return n
 }
 
+// upd mutates the connection record under its lock.
+func (c *conn) upd(f func(r *ConnRecord)) {
+	c.rec.mu.Lock()
+	f(&c.rec.r)
+	c.rec.mu.Unlock()
+}
+
 func (c *conn) serve() {
 	defer c.s.wg.Done()
 	defer c.finish()
-	c.cur = -1
 
 	if c.s.cfg.ImplicitTLS {
 		if !c.handshake() {
@@ -636,7 +664,7 @@ func (c *conn) serve() {
 		proto = "LMTP"
 	}
 	greet := reply{220, "", []string{c.s.cfg.Hostname + " " + proto + " verifkit smtpd ready"}}
-	if _, stop := c.respond(Event{Stage: StageConnect}, "", greet); stop {
+	if _, stop := c.respond(Event{Stage: StageConnect}, "", greet, nil); stop {
 		return
 	}
 
@@ -657,13 +685,15 @@ func (c *conn) finish() {
 	if !c.rawClose {
 		c.nc.Close() // for TLS: sends close_notify, then closes the TCP connection
 	}
+	c.upd(func(r *ConnRecord) {
+		r.Ended = true
+		if r.EndReason == "" {
+			r.EndReason = "ended"
+		}
+	})
 	s := c.s
 	s.mu.Lock()
 	delete(s.live, c.id)
-	c.rec.Ended = true
-	if c.rec.EndReason == "" {
-		c.rec.EndReason = "ended"
-	}
 	s.active--
 	s.bumpLocked()
 	s.mu.Unlock()
@@ -675,10 +705,10 @@ func (c *conn) end(reason string, byServer bool) {
 		return
 	}
 	c.ended = true
-	c.s.mu.Lock()
-	c.rec.EndReason = reason
-	c.rec.ClosedByServer = byServer
-	c.s.mu.Unlock()
+	c.upd(func(r *ConnRecord) {
+		r.EndReason = reason
+		r.ClosedByServer = byServer
+	})
 }
 
 // drop closes the TCP connection abruptly (no TLS close_notify).
@@ -732,9 +762,7 @@ func (c *conn) handshake() bool {
 	err := tc.Handshake()
 	c.raw.SetDeadline(time.Time{})
 	if err != nil {
-		c.s.mu.Lock()
-		c.rec.TLSError = err.Error()
-		c.s.mu.Unlock()
+		c.upd(func(r *ConnRecord) { r.TLSError = err.Error() })
 		if c.closing() {
 			c.end("server-close", true)
 		} else {
@@ -746,10 +774,10 @@ func (c *conn) handshake() bool {
 	c.nc = tc
 	c.br = bufio.NewReaderSize(tc, 32*1024)
 	c.tls = true
-	c.s.mu.Lock()
-	c.rec.TLS = true
-	c.rec.TLSState = &st
-	c.s.mu.Unlock()
+	c.upd(func(r *ConnRecord) {
+		r.TLS = true
+		r.TLSState = &st
+	})
 	return true
 }
 
@@ -760,30 +788,18 @@ func (c *conn) sabotageHandshake() {
 	buf := make([]byte, 4096)
 	c.nc.Read(buf)
 	c.nc.Write([]byte{0x15, 0x03, 0x03, 0x00, 0x02, 0x02, 0x28})
-	c.s.mu.Lock()
-	c.rec.TLSError = "handshake sabotaged (StartTLSBroken=handshake)"
-	c.s.mu.Unlock()
+	c.upd(func(r *ConnRecord) { r.TLSError = "handshake sabotaged (StartTLSBroken=handshake)" })
 	c.drop(false, "tls-handshake")
 }
 
-func (c *conn) beginCmd(stage Stage, line string) int {
-	s := c.s
-	s.mu.Lock()
-	defer s.mu.Unlock()
-	s.seq++
-	c.rec.Commands = append(c.rec.Commands, CmdRecord{
-		Seq: s.seq, Stage: stage, Line: line, TLS: c.tls, At: time.Now(),
+func (c *conn) beginCmd(stage Stage, line string) (idx int) {
+	c.upd(func(r *ConnRecord) {
+		r.Commands = append(r.Commands, CmdRecord{
+			Seq: c.s.seq.Add(1), Stage: stage, Line: line, TLS: c.tls, At: time.Now(),
+		})
+		idx = len(r.Commands) - 1
 	})
-	return len(c.rec.Commands) - 1
-}
-
-func (c *conn) endCmd(idx, code int, out []byte) {
-	c.s.mu.Lock()
-	r := &c.rec.Commands[idx]
-	r.ReplyCode = code
-	r.Reply = string(out)
-	r.ReplyAt = time.Now()
-	c.s.mu.Unlock()
+	return idx
 }
 
 // pause waits for d and then for hold; false means the server is closing.
@@ -823,18 +839,23 @@ func (c *conn) script(ev Event) *Action {
 	return c.s.cfg.Script(ev)
 }
 
+// sentFunc books the consequences of a reply in the record. It runs under the
+// record lock, right after the reply has been written successfully, with the
+// code the state machine goes by.
+type sentFunc func(r *ConnRecord, code int)
+
 // respond records the command, consults the script for ev and writes the
 // resulting reply. It returns the code the state machine must go by - 0 if no
 // reply was written - and whether the connection is finished.
-func (c *conn) respond(ev Event, line string, def reply) (code int, stop bool) {
+func (c *conn) respond(ev Event, line string, def reply, onSent sentFunc) (code int, stop bool) {
 	c.fill(&ev)
 	idx := c.beginCmd(ev.Stage, line)
-	return c.apply(c.script(ev), idx, def)
+	return c.apply(c.script(ev), idx, def, onSent)
 }
 
 // apply carries out act (nil: the default reply def) for the command recorded
 // at index idx.
-func (c *conn) apply(act *Action, idx int, def reply) (code int, stop bool) {
+func (c *conn) apply(act *Action, idx int, def reply, onSent sentFunc) (code int, stop bool) {
 	rp := def
 	var out []byte
 	if act != nil {
@@ -871,7 +892,23 @@ func (c *conn) apply(act *Action, idx int, def reply) (code int, stop bool) {
 		out = formatReply(rp)
 	}
 
-	if _, err := c.nc.Write(out); err != nil {
+	// Write and book under the record lock: whoever has seen the reply on the
+	// wire will also see it - and what it means - in the transcript.
+	c.rec.mu.Lock()
+	c.raw.SetWriteDeadline(time.Now().Add(writeTimeout))
+	_, err := c.nc.Write(out)
+	c.raw.SetWriteDeadline(time.Time{})
+	if err == nil {
+		cm := &c.rec.r.Commands[idx]
+		cm.ReplyCode = rp.code
+		cm.Reply = string(out)
+		cm.ReplyAt = time.Now()
+		if onSent != nil {
+			onSent(&c.rec.r, rp.code)
+		}
+	}
+	c.rec.mu.Unlock()
+	if err != nil {
 		if c.closing() {
 			c.end("server-close", true)
 		} else {
@@ -879,7 +916,6 @@ func (c *conn) apply(act *Action, idx int, def reply) (code int, stop bool) {
 		}
 		return 0, true
 	}
-	c.endCmd(idx, rp.code, out)
 
 	if act != nil && act.DropAfter {
 		c.drop(act.RST, "drop-after")
@@ -888,22 +924,24 @@ func (c *conn) apply(act *Action, idx int, def reply) (code int, stop bool) {
 	return rp.code, false
 }
 
-// txn returns the active transaction record; callers hold s.mu when mutating.
+// txn returns the active transaction record (for reading).
 func (c *conn) txn() *TxnRecord {
 	if c.cur < 0 {
 		return nil
 	}
-	return &c.rec.Txns[c.cur]
+	return &c.rec.r.Txns[c.cur]
 }
 
-// abandon marks the active transaction (if any) as reset.
-func (c *conn) abandon() {
-	if c.cur < 0 {
-		return
+// markReset flags the active transaction as abandoned; to be called under the
+// record lock (from a sentFunc). forget() completes it on the handler side.
+func (c *conn) markReset(r *ConnRecord) {
+	if c.cur >= 0 {
+		r.Txns[c.cur].Reset = true
 	}
-	c.s.mu.Lock()
-	c.rec.Txns[c.cur].Reset = true
-	c.s.mu.Unlock()
+}
+
+// forget leaves the active transaction.
+func (c *conn) forget() {
 	c.cur = -1
 	c.rcptIdx = 0
 }
@@ -946,21 +984,24 @@ func (c *conn) dispatch(line string) bool {
 		return c.cmdData(line, arg)
 	case "RSET":
 		code, stop := c.respond(Event{Stage: StageRset, Verb: verb, Arg: arg, From: c.from(), Rcpts: c.accepted()},
-			line, reply{250, "2.0.0", []string{"Flushed"}})
+			line, reply{250, "2.0.0", []string{"Flushed"}},
+			func(r *ConnRecord, code int) {
+				if is2xx(code) {
+					c.markReset(r)
+				}
+			})
 		if is2xx(code) {
-			c.abandon()
+			c.forget()
 		}
 		return stop
 	case "NOOP":
 		_, stop := c.respond(Event{Stage: StageNoop, Verb: verb, Arg: arg, From: c.from(), Rcpts: c.accepted()},
-			line, reply{250, "2.0.0", []string{"OK"}})
+			line, reply{250, "2.0.0", []string{"OK"}}, nil)
 		return stop
 	case "QUIT":
-		c.s.mu.Lock()
-		c.rec.QuitSeen = true
-		c.s.mu.Unlock()
+		c.upd(func(r *ConnRecord) { r.QuitSeen = true })
 		code, stop := c.respond(Event{Stage: StageQuit, Verb: verb, Arg: arg, From: c.from(), Rcpts: c.accepted()},
-			line, reply{221, "2.0.0", []string{"Bye"}})
+			line, reply{221, "2.0.0", []string{"Bye"}}, nil)
 		if stop {
 			return true
 		}
@@ -976,7 +1017,7 @@ func (c *conn) dispatch(line string) bool {
 	case "AUTH", "VRFY", "EXPN", "HELP", "BDAT", "ETRN", "TURN":
 		def = reply{502, "5.5.1", []string{"Command not implemented"}}
 	}
-	_, stop := c.respond(Event{Stage: StageUnknown, Verb: verb, Arg: arg, From: c.from(), Rcpts: c.accepted()}, line, def)
+	_, stop := c.respond(Event{Stage: StageUnknown, Verb: verb, Arg: arg, From: c.from(), Rcpts: c.accepted()}, line, def, nil)
 	return stop
 }
 
@@ -1020,14 +1061,18 @@ func (c *conn) cmdHello(line, verb, arg string) bool {
 	default:
 		def = reply{250, "", c.ehloLines()}
 	}
-	code, stop := c.respond(Event{Stage: StageEHLO, Verb: verb, Arg: arg}, line, def)
+	name := strings.TrimSpace(arg)
+	code, stop := c.respond(Event{Stage: StageEHLO, Verb: verb, Arg: arg}, line, def,
+		func(r *ConnRecord, code int) {
+			if is2xx(code) {
+				c.markReset(r)
+				r.Helo = name
+				r.HeloIsEHLO = verb != "HELO"
+			}
+		})
 	if is2xx(code) {
-		c.abandon()
-		c.helo = strings.TrimSpace(arg)
-		c.s.mu.Lock()
-		c.rec.Helo = c.helo
-		c.rec.HeloIsEHLO = verb != "HELO"
-		c.s.mu.Unlock()
+		c.forget()
+		c.helo = name
 	}
 	return stop
 }
@@ -1045,7 +1090,13 @@ func (c *conn) cmdStartTLS(line, arg string) bool {
 	default:
 		def = reply{220, "2.0.0", []string{"Ready to start TLS"}}
 	}
-	code, stop := c.respond(Event{Stage: StageStartTLS, Verb: "STARTTLS", Arg: arg}, line, def)
+	inTLS := c.tls
+	code, stop := c.respond(Event{Stage: StageStartTLS, Verb: "STARTTLS", Arg: arg}, line, def,
+		func(r *ConnRecord, code int) {
+			if is2xx(code) && !inTLS {
+				c.markReset(r)
+			}
+		})
 	if stop {
 		return true
 	}
@@ -1054,7 +1105,7 @@ func (c *conn) cmdStartTLS(line, arg string) bool {
 	}
 	// The client now starts a handshake; whatever was pipelined in plaintext
 	// behind STARTTLS is discarded together with the old reader.
-	c.abandon()
+	c.forget()
 	c.helo = ""
 	if cfg.StartTLSBroken == "handshake" || cfg.TLS == nil {
 		c.sabotageHandshake()
@@ -1068,12 +1119,13 @@ func (c *conn) cmdStartTLS(line, arg string) bool {
 func (c *conn) cmdMail(line, arg string) bool {
 	c.txnN++
 	from, params, ok := parsePath(arg, "FROM")
-	c.s.mu.Lock()
-	c.rec.Txns = append(c.rec.Txns, TxnRecord{
-		Conn: c.id, N: c.txnN, TLS: c.tls, MailArg: arg, From: from, MailParams: params,
+	var me int
+	c.upd(func(r *ConnRecord) {
+		r.Txns = append(r.Txns, TxnRecord{
+			Conn: c.id, N: c.txnN, TLS: c.tls, MailArg: arg, From: from, MailParams: params,
+		})
+		me = len(r.Txns) - 1
 	})
-	me := len(c.rec.Txns) - 1
-	c.s.mu.Unlock()
 
 	var def reply
 	switch {
@@ -1086,14 +1138,16 @@ func (c *conn) cmdMail(line, arg string) bool {
 	default:
 		def = reply{250, "2.1.0", []string{"Sender OK"}}
 	}
-	code, stop := c.respond(Event{Stage: StageMail, Verb: "MAIL", Arg: arg, From: from, Params: copyParams(params)}, line, def)
-	c.s.mu.Lock()
-	c.rec.Txns[me].MailCode = code
-	c.s.mu.Unlock()
+	code, stop := c.respond(Event{Stage: StageMail, Verb: "MAIL", Arg: arg, From: from, Params: copyParams(params)}, line, def,
+		func(r *ConnRecord, code int) {
+			r.Txns[me].MailCode = code
+			if is2xx(code) {
+				c.markReset(r) // only possible if the script accepted a nested MAIL
+			}
+		})
 	if is2xx(code) {
-		c.abandon()
+		c.forget()
 		c.cur = me
-		c.rcptIdx = 0
 	}
 	return stop
 }
@@ -1105,11 +1159,11 @@ func (c *conn) cmdRcpt(line, arg string) bool {
 	if c.cur >= 0 {
 		idx = c.rcptIdx
 		c.rcptIdx++
-		c.s.mu.Lock()
-		t := c.txn()
-		t.Rcpts = append(t.Rcpts, RcptRecord{Arg: arg, Addr: addr, Params: params})
-		ri = len(t.Rcpts) - 1
-		c.s.mu.Unlock()
+		c.upd(func(r *ConnRecord) {
+			t := &r.Txns[c.cur]
+			t.Rcpts = append(t.Rcpts, RcptRecord{Arg: arg, Addr: addr, Params: params})
+			ri = len(t.Rcpts) - 1
+		})
 	}
 	var def reply
 	switch {
@@ -1123,12 +1177,11 @@ func (c *conn) cmdRcpt(line, arg string) bool {
 	// Rcpts in the event: accepted before this command.
 	ev := Event{Stage: StageRcpt, Verb: "RCPT", Arg: arg, From: c.from(), Rcpt: addr, RcptIndex: idx,
 		Params: copyParams(params), Rcpts: c.accepted()}
-	code, stop := c.respond(ev, line, def)
-	if ri >= 0 {
-		c.s.mu.Lock()
-		c.txn().Rcpts[ri].Code = code
-		c.s.mu.Unlock()
-	}
+	_, stop := c.respond(ev, line, def, func(r *ConnRecord, code int) {
+		if ri >= 0 {
+			r.Txns[c.cur].Rcpts[ri].Code = code
+		}
+	})
 	return stop
 }
 
@@ -1142,12 +1195,12 @@ func (c *conn) cmdData(line, arg string) bool {
 	default:
 		def = reply{354, "", []string{"End data with <CR><LF>.<CR><LF>"}}
 	}
-	code, stop := c.respond(Event{Stage: StageData, Verb: "DATA", Arg: arg, From: c.from(), Rcpts: c.accepted()}, line, def)
-	if c.cur >= 0 {
-		c.s.mu.Lock()
-		c.txn().DataCmdCode = code
-		c.s.mu.Unlock()
-	}
+	code, stop := c.respond(Event{Stage: StageData, Verb: "DATA", Arg: arg, From: c.from(), Rcpts: c.accepted()}, line, def,
+		func(r *ConnRecord, code int) {
+			if c.cur >= 0 {
+				r.Txns[c.cur].DataCmdCode = code
+			}
+		})
 	if stop {
 		return true
 	}
@@ -1158,18 +1211,18 @@ func (c *conn) cmdData(line, arg string) bool {
 		// The script forced a 354 outside a transaction: the client will send
 		// a payload, so account for it in an implicit transaction record.
 		c.txnN++
-		c.s.mu.Lock()
-		c.rec.Txns = append(c.rec.Txns, TxnRecord{Conn: c.id, N: c.txnN, TLS: c.tls, DataCmdCode: code})
-		c.cur = len(c.rec.Txns) - 1
-		c.s.mu.Unlock()
+		c.upd(func(r *ConnRecord) {
+			r.Txns = append(r.Txns, TxnRecord{Conn: c.id, N: c.txnN, TLS: c.tls, DataCmdCode: code})
+			c.cur = len(r.Txns) - 1
+		})
 	}
 
 	payload, err := readData(c.br)
-	c.s.mu.Lock()
-	t := c.txn()
-	t.Data = append([]byte{}, payload...)
-	t.DataReceived = err == nil
-	c.s.mu.Unlock()
+	c.upd(func(r *ConnRecord) {
+		t := &r.Txns[c.cur]
+		t.Data = append([]byte{}, payload...)
+		t.DataReceived = err == nil
+	})
 	if err != nil {
 		c.readFailed(err)
 		return true
@@ -1181,19 +1234,19 @@ func (c *conn) cmdData(line, arg string) bool {
 }
 
 func (c *conn) finishSMTP(payload []byte) bool {
+	me := c.cur
 	rcpts := c.accepted()
 	def := reply{250, "2.0.0", []string{fmt.Sprintf("OK: queued as %d-%d", c.id, c.txnN)}}
-	code, stop := c.respond(Event{Stage: StageDot, From: c.from(), Rcpts: rcpts, Data: payload}, ".", def)
-	c.s.mu.Lock()
-	t := c.txn()
-	t.DotCode = code
-	if is2xx(code) {
-		t.Committed = true
-		t.CommittedRcpts = append([]string(nil), rcpts...)
-	}
-	c.s.mu.Unlock()
-	c.cur = -1
-	c.rcptIdx = 0
+	_, stop := c.respond(Event{Stage: StageDot, From: c.from(), Rcpts: rcpts, Data: payload}, ".", def,
+		func(r *ConnRecord, code int) {
+			t := &r.Txns[me]
+			t.DotCode = code
+			if is2xx(code) {
+				t.Committed = true
+				t.CommittedRcpts = append([]string(nil), rcpts...)
+			}
+		})
+	c.forget()
 	return stop
 }
 
@@ -1201,10 +1254,7 @@ func (c *conn) finishLMTP(payload []byte) bool {
 	me := c.cur
 	from := c.from()
 	rcpts := c.accepted()
-	defer func() {
-		c.cur = -1
-		c.rcptIdx = 0
-	}()
+	defer c.forget()
 
 	// The "dot" stage has no reply of its own in LMTP: it is recorded and the
 	// script consulted, but by default nothing is written.
@@ -1215,10 +1265,8 @@ func (c *conn) finishLMTP(payload []byte) bool {
 		if act.Code != 0 || act.Raw != nil || act.DropBefore || act.DropAfter {
 			// A single reply in place of the per-recipient ones, or a drop:
 			// nothing is committed.
-			code, stop := c.apply(act, idx, reply{250, "2.0.0", []string{"OK"}})
-			c.s.mu.Lock()
-			c.rec.Txns[me].DotCode = code
-			c.s.mu.Unlock()
+			_, stop := c.apply(act, idx, reply{250, "2.0.0", []string{"OK"}},
+				func(r *ConnRecord, code int) { r.Txns[me].DotCode = code })
 			return stop
 		}
 		if !c.pause(act.Delay, act.Hold) {
@@ -1227,32 +1275,30 @@ func (c *conn) finishLMTP(payload []byte) bool {
 		}
 	}
 
-	c.s.mu.Lock()
 	type acc struct {
 		addr string
 		idx  int
 	}
 	var list []acc
-	for i, r := range c.rec.Txns[me].Rcpts {
+	for i, r := range c.rec.r.Txns[me].Rcpts {
 		if is2xx(r.Code) {
 			list = append(list, acc{r.Addr, i})
 		}
 	}
-	c.rec.Txns[me].RcptDotCodes = make([]int, len(list))
-	c.s.mu.Unlock()
+	c.upd(func(r *ConnRecord) { r.Txns[me].RcptDotCodes = make([]int, len(list)) })
 
 	for k, a := range list {
 		def := reply{250, "2.1.5", []string{"<" + a.addr + "> delivered"}}
-		code, stop := c.respond(Event{Stage: StageLMTPRcptStatus, From: from, Rcpt: a.addr, RcptIndex: a.idx,
-			Rcpts: rcpts, Data: payload}, "", def)
-		c.s.mu.Lock()
-		t := &c.rec.Txns[me]
-		t.RcptDotCodes[k] = code
-		if is2xx(code) {
-			t.Committed = true
-			t.CommittedRcpts = append(t.CommittedRcpts, a.addr)
-		}
-		c.s.mu.Unlock()
+		_, stop := c.respond(Event{Stage: StageLMTPRcptStatus, From: from, Rcpt: a.addr, RcptIndex: a.idx,
+			Rcpts: rcpts, Data: payload}, "", def,
+			func(r *ConnRecord, code int) {
+				t := &r.Txns[me]
+				t.RcptDotCodes[k] = code
+				if is2xx(code) {
+					t.Committed = true
+					t.CommittedRcpts = append(t.CommittedRcpts, a.addr)
+				}
+			})
 		if stop {
 			return true
 		}
